@@ -19,7 +19,10 @@ CONSTANTS NumServers,     \* servers "s0".."s<n-1>", in the permuted order of th
           RHs,            \* root-hash ranks a new version may get
           Forge, Replay,  \* BOOLEAN: crafted versions / replay of any version's shares
           OpKinds,        \* subset of {"read","check","repair"}
-          ReadOrder       \* "fifo" (answers in query order) or "any"
+          ReadOrder,      \* "fifo" (answers in query order) or "any"
+          InitHist        \* "one": a freshly created file; "competitors": history in which a second writer that
+                          \* only saw version 1 published another version with seqnum 2 (reachable from "one"
+                          \* by roll-back of all servers, used as a start state to keep quick runs small)
 
 VARIABLES vers, L, down, nt, nd, op, rd, actor
 vars == <<vers, L, down, nt, nd, op, rd, actor>>
@@ -34,8 +37,11 @@ EmptyL == [s \in SrvSet |-> [sh \in Shnums |-> Absent]]
 MaxSeqAll == SetMax({vers[v].seq : v \in 1..Len(vers)})
 
 Init ==
-  /\ vers = <<[seq |-> 1, rh |-> 1, content |-> 1, signer |-> "owner"]>>
-  /\ L = WriteVersion(EmptyL, PublishGoal(EmptyL, Servers), 1)
+  /\ vers = IF InitHist = "one" THEN <<[seq |-> 1, rh |-> 1, content |-> 1, signer |-> "owner"]>>
+            ELSE <<[seq |-> 1, rh |-> 1, content |-> 1, signer |-> "owner"],
+                   [seq |-> 2, rh |-> 1, content |-> 2, signer |-> "owner"],
+                   [seq |-> 2, rh |-> 2, content |-> 3, signer |-> "owner"]>>
+  /\ L = WriteVersion(EmptyL, PublishGoal(EmptyL, Servers), Len(vers))
   /\ down = {} /\ nt = 0 /\ nd = 0
   /\ op = NoOp /\ rd = Idle /\ actor = "writer"
 
@@ -108,8 +114,8 @@ Respond ==
             more == Max(0, 5 - Cardinality(out2))        \* MAX_IN_FLIGHT
         IN IF done
              THEN /\ rd' = Idle
-                  /\ op' = [kind |-> "read", Q |-> resp2, M |-> M2, resv |-> ReadVersion(vers, L, M2),
-                            allq |-> (resp2 = ToSet(rd.ord))]
+                  /\ \E rv \in ReadVersions(vers, L, M2) :
+                       op' = [kind |-> "read", Q |-> resp2, M |-> M2, resv |-> rv, allq |-> (resp2 = ToSet(rd.ord))]
              ELSE /\ rd' = [rd EXCEPT !.M = M2, !.resp = resp2, !.nsent = Min(Len(rd.ord), rd.nsent + more)]
                   /\ op' = NoOp
   /\ actor' = "reader"
@@ -134,8 +140,8 @@ DoRepair ==
           THEN /\ op' = base @@ [res |-> dec]
                /\ UNCHANGED <<vers, L>>
           ELSE \* download_version: a fresh MODE_READ map, then Retrieve of the chosen version
-               \E M2 \in Maps(vers, L, Up) : \E r \in RHs :
-                 IF b \in Recoverable(M2) /\ RetrieveOK(L, M2, b)
+               \E M2 \in Maps(vers, L, Up) : \E r \in RHs : \E got \in RetrieveOutcomes(L, M2, b) :
+                 IF b \in Recoverable(M2) /\ got = b
                    THEN LET nv == Len(vers) + 1
                             seq == MaxSeq(vers, M) + 1
                         IN /\ \A v \in 1..Len(vers) : ~(vers[v].seq = seq /\ vers[v].rh = r)
@@ -157,13 +163,17 @@ TypeOK ==
 
 PublishedContents == {vers[v].content : v \in OwnerVersions(vers)}
 IntactShnums(v, Q) == {sh \in Shnums : \E s \in Q : L[s][sh] = [v |-> v, cls |-> "intact"]}
+\* servers none of whose acceptable shares of version v fails block validation
+CleanFor(v, s) == \A sh \in Shnums : (MayAccept(vers, L[s][sh]) /\ L[s][sh].v = v) => BodyValid(L[s][sh])
+CleanIntactShnums(v, Q) == {sh \in Shnums : \E s \in Q : L[s][sh] = [v |-> v, cls |-> "intact"] /\ CleanFor(v, s)}
 
 \* C10: a read delivers the plaintext of a version the write-cap holder published, or an error
 C10_OnlyPublished ==
   op.kind = "read" /\ op.resv # 0 => vers[op.resv].signer = "owner" /\ vers[op.resv].content \in PublishedContents
-\* C10: k intact shares of the newest published version on the servers that answered => that version is read
+\* C10: k intact shares of the newest published version on answering servers (that did not also serve a
+\* corrupt share of it: such servers are dropped as a whole) => that version is read
 C10_Available ==
-  op.kind = "read" /\ Cardinality(IntactShnums(Newest(vers), op.Q)) >= K
+  op.kind = "read" /\ Cardinality(CleanIntactShnums(Newest(vers), op.Q)) >= K
      => op.resv # 0 /\ vers[op.resv].content = vers[Newest(vers)].content
 \* C10: nothing signed by another key is ever taken into a servermap (read, check, repair, publish survey)
 C10_NoForgery_State ==
